@@ -10,7 +10,7 @@ QUEUES = ("scheduling_queue", "cancel_queue")
 DECIDED = [
     "LOCK: every access to the hand-over queues happens with thread_data.mutex of the same scheduler held (constructor before launch and destroy after join exempt)",
     "CONFINE: the inner task scheduler is touched only by the scheduler thread, by the constructor before/without a running thread, and by destroy after the join",
-    "NOTIFY: every enqueue is followed by a notification of the scheduler's condition variable; the wake predicate reads everything a notifier changes",
+    "NOTIFY: every enqueue is followed by a notification of the scheduler's condition variable; the wake predicate reads everything a notifier changes; because the exit flag is stored without the mutex, every wait on the predicate is bounded in time (no untimed wait, no `forever` time-out constant); a record is completely written before it is linked into a hand-over queue",
     "SHUTDOWN-ORDER: exit flag -> notify -> join -> inner clean-up -> primitive clean-ups -> release",
     "DRAIN: both hand-over queues are provably empty (or drained into a consumer) between the join and the release; no local batch list is dropped while it may hold items",
     "CANCEL-NODE: each cancellation record is enqueued on every path after allocation and released after being consumed",
@@ -179,6 +179,60 @@ def analyse(ctx, replace=None, only=None):
             R.check(c in pred_reads, "NOTIFY", "predicate-reads:%s" % c, "s_thread_should_wake()", "wake predicate reads %s" % c,
                     "notifier %s changes %s but the wake predicate s_thread_should_wake does not read it" % (name, c))
     R.require(notifiers >= 3, "only %d notifier functions found (confirmed: schedule_future, cancel_task, destroy)" % notifiers)
+    # a predicate input that is changed WITHOUT the mutex can be changed (and notified) between the waiter's predicate
+    # evaluation and its blocking: that notification is lost, so every wait on the predicate must be bounded in time
+    unlocked = []
+    for name, f in sorted(fns.items()):
+        if name in ("aws_thread_scheduler_new",):
+            continue
+        ts = RU.lockset(f)
+        for e in f.calls({"aws_atomic_store_int", "aws_atomic_store_int_explicit"}):
+            fld = (RU.strip_addr(f, RU.arg(f, e.node, 0)) or {}).get("f")
+            if fld in pred_reads and not any(h.endswith("thread_data.mutex") for h in (RU.held_at(ts, e) or set())):
+                unlocked.append((name, fld, e))
+    waits = [(f, e) for f in fns.values() for e in f.calls({"aws_condition_variable_wait_for_pred", "aws_condition_variable_wait_pred", "aws_condition_variable_wait", "aws_condition_variable_wait_for"})]
+    R.require(len(waits) >= 1, "no condition wait found in %s" % FILE)
+    if unlocked:
+        for f, e in waits:
+            timed = e.node["callee"] in ("aws_condition_variable_wait_for_pred", "aws_condition_variable_wait_for")
+            okw, det = timed, "untimed %s" % e.node["callee"]
+            if timed:
+                # constants reaching the timeout argument are finite durations, not a `forever` sentinel
+                tv = RU.uncast(f, RU.arg(f, e.node, 2))
+                big = []
+                if tv is not None and tv["k"] == "var":
+                    for b in f.blocks.values():
+                        for el in b.elems:
+                            for x in f.walk(el):
+                                if x["k"] == "bin" and x["op"] == "=" and f.show(f.d(x["a"][0])) == tv["n"]:
+                                    cv_ = f.is_const(x["a"][1])
+                                    if cv_ is not None and abs(cv_) >= 2 ** 62:
+                                        big.append(cv_)
+                            if el["k"] == "decl":
+                                for v in el["vars"]:
+                                    if v["n"] == tv["n"] and v.get("init") is not None and f.is_const(v["init"]) is not None and abs(f.is_const(v["init"])) >= 2 ** 62:
+                                        big.append(f.is_const(v["init"]))
+                elif tv is not None and f.is_const(tv) is not None and abs(f.is_const(tv)) >= 2 ** 62:
+                    big.append(f.is_const(tv))
+                okw, det = not big, "the time-out can be the `forever` value %s" % big
+            R.check(okw, "NOTIFY", "wait-is-timed:%s" % f.name, where(f, e), "the wait is bounded in time (%s is changed without the mutex in %s, so its notification can fall between predicate check and blocking)" % (unlocked[0][1], unlocked[0][0]),
+                    "%s: %s is stored without thread_data.mutex in %s(), so its notification can arrive after the waiter evaluated the predicate and before it blocks; with an unbounded wait the scheduler thread sleeps forever and the final release never returns from join" % (det, unlocked[0][1], unlocked[0][0]))
+    # publication: a task is completely written before it is linked into the hand-over queue (the scheduler thread may take
+    # it the moment the mutex is released - or, for a thread that is already awake, the moment it is linked)
+    for name, f in sorted(fns.items()):
+        if name in ("s_thread_fn", "s_destroy_callback"):
+            continue
+        for e in f.calls(set(LIST_PUSH)):
+            q = queue_of(f, RU.arg(f, e.node, 0))
+            if not q:
+                continue
+            item = RU.strip_addr(f, RU.arg(f, e.node, 1))
+            if item is None or item["k"] != "member":
+                continue
+            owner = f.show(f.d(item["a"][0]))
+            late = [w for w in RU.reach_from(f, e) if w.kind == "access" and w.mode in ("w", "rw") and w.node["k"] == "member" and f.show(f.d(w.node["a"][0])) == owner and w is not e]
+            R.check(not late, "NOTIFY", "published-complete:%s:%s" % (name, owner), where(f, e), "every field of `%s` is written before it is linked into %s" % (owner, q[0]),
+                    "`%s` is still written (%s) after it was linked into the hand-over queue: the scheduler thread can take it with the old value (a task with a stale timestamp runs at the wrong time)" % (owner, sorted({f.show(w.node) for w in late})))
 
     # ------------------------------------------------------------------ SHUTDOWN-ORDER
     d = fns["s_destroy_callback"]
@@ -501,6 +555,10 @@ MUTANTS = [
     {"name": "unlock-before-push", "file": FILE, "expect": "LOCK",
      "old": "    aws_linked_list_push_back(&scheduler->thread_data.scheduling_queue, &task->node);\n    AWS_FATAL_ASSERT(!aws_mutex_unlock(&scheduler->thread_data.mutex) && \"mutex unlock failed!\");",
      "new": "    AWS_FATAL_ASSERT(!aws_mutex_unlock(&scheduler->thread_data.mutex) && \"mutex unlock failed!\");\n    aws_linked_list_push_back(&scheduler->thread_data.scheduling_queue, &task->node);"},
+    {"name": "timestamp-stored-after-hand-over", "file": FILE, "expect": "NOTIFY",
+     "old": "    task->timestamp = time_to_run;\n    AWS_FATAL_ASSERT(!aws_mutex_lock(&scheduler->thread_data.mutex) && \"mutex lock failed!\");\n    aws_linked_list_push_back(&scheduler->thread_data.scheduling_queue, &task->node);\n    AWS_FATAL_ASSERT(!aws_mutex_unlock(&scheduler->thread_data.mutex) && \"mutex unlock failed!\");",
+     "new": "    AWS_FATAL_ASSERT(!aws_mutex_lock(&scheduler->thread_data.mutex) && \"mutex lock failed!\");\n    aws_linked_list_push_back(&scheduler->thread_data.scheduling_queue, &task->node);\n    AWS_FATAL_ASSERT(!aws_mutex_unlock(&scheduler->thread_data.mutex) && \"mutex unlock failed!\");\n    task->timestamp = time_to_run;"},
+    {"name": "idle-wait-forever", "file": FILE, "expect": "NOTIFY", "old": "            timeout = (int64_t)30 * (int64_t)AWS_TIMESTAMP_NANOS;", "new": "            timeout = INT64_MAX;"},
     {"name": "drop-notify-on-cancel", "file": FILE, "expect": "NOTIFY",
      "old": "    /* notify so the loop knows to wakeup and process the cancellations. */\n    aws_condition_variable_notify_one(&scheduler->thread_data.c_var);",
      "new": "    /* notify so the loop knows to wakeup and process the cancellations. */\n"},
